@@ -480,7 +480,7 @@ func ScriptBoundary(emit func(*Program)) {
 		}
 	}
 	// a P2SH-shaped output after Genesis is a plain hash comparison: no push-only rule, no redeem script
-	for _, redeem := range [][]byte{{0x51}, {0x00}, {0x51, 0x51, 0x87}} {
+	for _, redeem := range [][]byte{{0x51}, {0x00}, {0x51, 0x51, 0x87}, {}} {
 		lock := append(append([]byte{0xa9, 0x14}, Hash160(redeem)...), 0x87)
 		for _, un := range [][]byte{Push(redeem), append([]byte{0x61}, Push(redeem)...), append([]byte{0x51, 0x75}, Push(redeem)...), append(Push(redeem), 0x61)} {
 			for _, fl := range []uint32{FBip16 | FGenesis, FBip16, FGenesis, FBip16 | FGenesis | FCleanStack, FBip16 | FCleanStack, FBip16 | FGenesis | FSigPushOnly} {
